@@ -101,9 +101,12 @@ def cmd_digests(spec):
 
 def minimise(prop, v, known):
     cls = v['class']
+    base_harness_exc = runner.run_plan(copy.deepcopy(v['plan']), [prop]).get('harness_exc')
 
     def still_fails(plan):
         res = runner.run_plan(plan, [prop])
+        if res.get('harness_exc') and not base_harness_exc:
+            return False  # the reduction broke the scenario itself (an executor callback raised)
         for x in res['violations']:
             if x.prop == prop and x.cls == cls and findings.match(known, prop, x.cls, x.facts) is None:
                 return True
